@@ -277,6 +277,23 @@ pub fn run(ctx: &Ctx) -> i32 {
             }
         }
     });
+    // wider infosets (4 and 6 actions) with dyadic and non-dyadic profiles, truncated at every one of
+    // their probabilities: an action exactly at the threshold next to smaller and larger ones
+    for k in [4usize, 6] {
+        let tree = Tree::P(0, "w".to_string(), (0..k).map(|i| (crate::universe::ACTS.get(i).map(|a| a.to_string()).unwrap_or(format!("x{}", i)), Tree::T(i as f64))).collect());
+        let half: Vec<f64> = (0..k).map(|i| if i + 1 == k { 0.5f64.powi(i as i32) } else { 0.5f64.powi(i as i32 + 1) }).collect();
+        let ramp_total: f64 = (1..=k).map(|i| i as f64).sum();
+        let ramp: Vec<f64> = (1..=k).map(|i| i as f64 / ramp_total).collect();
+        for probs in [half, ramp] {
+            let prof: crate::refmodel::Profile = [[("w".to_string(), probs.clone())].into_iter().collect(), Default::default()];
+            check_case(ctx, &tree, &Source::Grid(prof.clone()));
+            for h in probs.iter() {
+                check_case(ctx, &tree, &Source::Truncated(prof.clone(), *h));
+                ctx.case(1, true);
+                ctx.count("wide_infoset_truncations", 1);
+            }
+        }
+    }
     ctx.finish(
         "every valid skeleton within the bounds and the curated families x {every grid profile, each truncated at 0.25, 0.5 (values the grid really has) and 0.6, solver output of Full/Sampled/External for T in {0,1,5}}; for each, every prefix of the outer iterator and of every inner iterator (transitions = number of (iterator state) points at which len/size_hint were compared with the items that followed); non-trivial = the game has at least one infoset",
         true,
